@@ -1,11 +1,13 @@
 import Driver.HistCmd
 import Driver.SolverCmd
+import Driver.StrCmd
 open Lean PyRates.Driver
 
 def dispatch (comp : String) (j : Json) : Except String Json :=
   match comp with
   | "hist" => histCmd j
   | "solver" => solverCmd j
+  | "str" => strCmd j
   | _ => .error s!"unknown component {comp}"
 
 partial def loop (h : IO.FS.Stream) (out : IO.FS.Stream) : IO Unit := do
